@@ -145,7 +145,8 @@ fn dispatch() -> RunResult {
         let (errs, started, finished, joined, bodies, by, before_join, forget) = (errs.clone(), started.clone(), finished.clone(), joined.clone(), bodies.clone(), by.clone(), before_join.clone(), forget.clone());
         move || {
             let mut pb = ProactorBuilder::new();
-            pb.capacity(capacity).driver_type(compio_driver::DriverType::IoUring);
+            pb.capacity(capacity);
+            draw_driver(&mut pb);
             let rt = compio_runtime::Runtime::builder().with_proactor(pb.clone()).sync_queue_size(sync_queue).build().expect("runtime");
             rt.block_on(async {
                 let dispatcher = compio_dispatcher::Dispatcher::builder()
